@@ -107,8 +107,13 @@ func c16ConcJobDD(ids *c16IDs, obs []c16Obs, conc, dd int, seq []int) c16Job {
 		e := c16NewEnv(ids, c16DNSTable(obs[0]), false, WithServerRateLimit(60, 12, dd, conc))
 		e.dialHang = 15 * time.Second
 		var running []*c16Running
+		var started []time.Time // virtual arrival time of running[i]
 		maxServed, rejected := 0, 0
 		for i, ev := range seq {
+			for len(started) < len(running) {
+				started = append(started, time.Time{})
+			}
+			arrival := time.Now()
 			switch ev {
 			case c16EvStall:
 				running = append(running, c16Start(e, ids, obs, c16Req{Requester: "a", Classes: []int{int(c16Foreign)}, Beh: int(c16BStallHalf), PortBase: 10 * i}))
@@ -122,6 +127,25 @@ func c16ConcJobDD(ids *c16IDs, obs []c16Obs, conc, dd int, seq []int) c16Job {
 				time.Sleep(16 * time.Second)
 			}
 			synctest.Wait() // every goroutine is blocked: the server went as far as it can
+			for len(started) < len(running) {
+				started = append(started, arrival)
+			}
+			// the dial-data limit holds for overlapping requests as well: of the requests that arrived in the last
+			// minute (half-open window) at most dd were asked for dial data - an arriving request is asked, or turned
+			// down, at once, so the time of the question is the arrival time
+			asked := 0
+			e.mu.Lock()
+			for j, r := range running {
+				if r.o.ddr() != nil && started[j].After(arrival.Add(-time.Minute)) {
+					asked++
+				}
+			}
+			e.mu.Unlock()
+			if asked > dd {
+				jr.findings = append(jr.findings, c16Finding{"server-dial-data-limit-exceeded-by-overlapping-requests",
+					fmt.Sprintf("%d requests that arrived within one minute were asked for dial data (some of them still in service), the limit is %d per minute; events so far: %s", asked, dd, strings.Join(sn[:i+1], ","))})
+				break
+			}
 			served := 0
 			e.mu.Lock()
 			for _, r := range running {
